@@ -16,8 +16,78 @@ class CallGraph:
                 for o in m.get("overrides", []):
                     self.overriders.setdefault(o, []).append(m["key"])
         self._edges = {}
+        self.field_types = self._field_allocation_types()
 
-    def resolve(self, call):
+    # ---- exact dynamic types of owning pointer members -------------------------------------------------------
+    @staticmethod
+    def _first_targ(targs):
+        depth = 0
+        out = []
+        for ch in (targs or "")[1:]:
+            if ch in "<(":
+                depth += 1
+            elif ch in ">)":
+                if depth == 0:
+                    break
+                depth -= 1
+            elif ch == "," and depth == 0:
+                break
+            out.append(ch)
+        return "".join(out).strip()
+
+    @staticmethod
+    def _ptr_field(e):
+        """(class-relative) field path behind `this->f` / `f->` / `*f` for a pointer-like member, else None."""
+        e = ir.unwrap(e)
+        if isinstance(e, dict) and e.get("k") == "OpCall" and e.get("op") in ("->", "*") and e.get("args"):
+            e = ir.unwrap(e["args"][0])
+        p = ir.path(e)
+        if p and len(p) == 2 and p[0] == "this":
+            return p[1]
+        return None
+
+    def _field_allocation_types(self):
+        """(class, field) -> set of concrete class names, when *every* write to the member in the program installs a
+        freshly made object (make_unique<X> / new X) or null.  A virtual call through such a member can only reach X's
+        overriders (the over-approximation by class hierarchy would invent cycles such as Gzip::write -> Gzip::write)."""
+        types = {}
+        spoiled = set()
+        for f in self.facts.functions.values():
+            cls = f.get("cls")
+            if not cls:
+                continue
+            nodes = list(ir.walk(f.get("body"))) if f.get("body") else []
+            for i in f.get("inits", []) or []:
+                if i.get("member") and i.get("init") is not None:
+                    nodes.append({"k": "Bin", "op": "=", "lhs": {"k": "Member", "field": True, "n": i["member"], "base": {"k": "This"}},
+                                  "rhs": i["init"]})
+            for n in nodes:
+                tgt = rhs = None
+                if n.get("k") == "Bin" and n.get("op") == "=":
+                    tgt, rhs = ir.path(n.get("lhs")), n.get("rhs")
+                elif n.get("k") == "OpCall" and n.get("op") == "=" and len(n.get("args", [])) == 2:
+                    tgt, rhs = ir.path(n["args"][0]), n["args"][1]
+                elif n.get("k") == "MCall" and ir.callee_name(n) == "reset":
+                    tgt, rhs = ir.path(n.get("recv")), (n.get("args") or [None])[0]
+                if not tgt or len(tgt) != 2 or tgt[0] != "this":
+                    continue
+                key = (cls, tgt[1])
+                u = ir.unwrap_all_casts(rhs) if rhs is not None else None
+                while isinstance(u, dict) and u.get("k") == "Construct" and len(u.get("args", [])) == 1:
+                    u = ir.unwrap_all_casts(u["args"][0])
+                if u is None or (isinstance(u, dict) and (u.get("null") or (u.get("k") == "Construct" and not u.get("args")))):
+                    types.setdefault(key, set())
+                    continue
+                if isinstance(u, dict) and u.get("k") == "Call" and (ir.callee_qn(u) or "").startswith("std::make_unique"):
+                    types.setdefault(key, set()).add(self._first_targ((u.get("callee") or {}).get("targs", "")))
+                    continue
+                if isinstance(u, dict) and u.get("k") == "New" and u.get("nt"):
+                    types.setdefault(key, set()).add(u["nt"])
+                    continue
+                spoiled.add(key)
+        return {k: v for k, v in types.items() if k not in spoiled and v}
+
+    def resolve(self, call, fn=None):
         cal = call.get("callee") or {}
         q = cal.get("qn")
         if not q:
@@ -41,10 +111,21 @@ class CallGraph:
                     if d not in keys:
                         keys.add(d)
                         work.append(d)
+            exact = None
+            if fn is not None and call.get("k") == "MCall":
+                fld = self._ptr_field(call.get("recv"))
+                if fld is not None:
+                    exact = self.field_types.get((fn.get("cls"), fld))
             for k in keys:
                 f = self.facts.functions.get(k)
                 if f is not None and f not in out:
                     out.append(f)
+            if exact:
+                norm = lambda t: (t or "").replace("std::string", "std::basic_string<char>").replace(" ", "")
+                ex = set(norm(t) for t in exact)
+                narrowed = [f for f in out if norm(f.get("cls")) in ex]
+                if narrowed:
+                    out = narrowed
         return out
 
     def callees(self, fn):
@@ -53,7 +134,7 @@ class CallGraph:
             return self._edges[k]
         out = {}
         for c in ir.calls_in(fn["body"]):
-            for g in self.resolve(c):
+            for g in self.resolve(c, fn):
                 out[g["key"]] = g
         # constructor member/base initialisers
         for i in fn.get("inits", []) or []:
